@@ -66,3 +66,42 @@ Definition ret_pinned (s : site) (m : mem) (off len : nat) : value :=
   | SGetVec => Copy (slice off len (m_img m))
   | _ => View (m_gen m) off len
   end.
+
+(* ---- the other direction: what the collection keeps of the slices its caller passes in (vector, metadata).
+   AddDocument/UpdateDocument encode the document into the mapping before they return (encodeDocument, writeAt);
+   Search reads the query vector during the call only.  A kept value is either a private copy or the caller's
+   slice itself; the caller may re-use its buffers at any time after the call has returned. ---- *)
+Inductive kept :=
+| KCopy (bs : list N)      (* the bytes as they were when the call was made *)
+| KRef (buf : nat).        (* the caller's slice number buf, retained *)
+
+Definition cmem := list (list N).      (* the caller's buffers *)
+
+Definition kobserve (c : cmem) (k : kept) : list N :=
+  match k with KCopy bs => bs | KRef i => nth i c [] end.
+
+Fixpoint set_nth (i : nat) (x : list N) (c : cmem) : cmem :=
+  match c, i with
+  | [], _ => []
+  | _ :: c', O => x :: c'
+  | y :: c', S i' => y :: set_nth i' x c'
+  end.
+
+(* the caller overwrites part of one of its buffers *)
+Inductive cop := CWrite (buf off : nat) (bs : list N).
+
+Definition cstep (c : cmem) (o : cop) : cmem :=
+  match o with CWrite i off bs => set_nth i (splice off bs (nth i c [])) c end.
+
+Definition crun (c : cmem) (h : list cop) : cmem := fold_left cstep h c.
+
+(* the current code: what is stored is a copy made during the call (validated by the harness: after the call the
+   caller's buffers are overwritten and the collection is re-read; no stored or returned slice shares their memory) *)
+Definition keep_current (c : cmem) (i : nat) : kept := KCopy (nth i c []).
+(* the alternative that the property excludes *)
+Definition keep_ref (c : cmem) (i : nat) : kept := KRef i.
+
+(* collection and caller side by side: operations of the collection act on the mapping only *)
+Definition joint_step (st : mem * cmem) (o : mop + cop) : mem * cmem :=
+  match o with inl mo => (mstep (fst st) mo, snd st) | inr co => (fst st, cstep (snd st) co) end.
+Definition joint_run (st : mem * cmem) (h : list (mop + cop)) : mem * cmem := fold_left joint_step h st.
